@@ -171,13 +171,22 @@ func (c *Collector) NotExhaustive(why string) {
 	c.mu.Unlock()
 }
 
-// Violation records a violation; per signature only the first few replays are
-// kept (the count is always kept).
+// Violation records a violation. Per signature the count is always kept and
+// the shortest description seen so far is kept as the witness.
 func (c *Collector) Violation(sig, what string, replay any) {
 	c.mu.Lock()
 	defer c.mu.Unlock()
 	c.p.SigCounts[sig]++
-	if c.p.SigCounts[sig] <= 2 && len(c.p.Violations) < c.maxViol {
+	for i := range c.p.Violations {
+		if c.p.Violations[i].Signature == sig {
+			if len(what) < len(c.p.Violations[i].What) {
+				c.p.Violations[i].What = what
+				c.p.Violations[i].Replay = replay
+			}
+			return
+		}
+	}
+	if len(c.p.Violations) < c.maxViol {
 		c.p.Violations = append(c.p.Violations, Violation{Signature: sig, What: what, Replay: replay})
 	}
 }
